@@ -1,6 +1,6 @@
 use rusty_bit_vec::MAX_INTEGER;
 use rusty_common::Positioned;
-use rusty_parser::{AsBareName, Expression, TypeQualifier};
+use rusty_parser::{AsBareName, Expression, Name, TypeQualifier};
 use rusty_variant::Variant;
 
 use crate::core::{ConstLookup, LintError};
@@ -32,23 +32,32 @@ impl<C: ConstLookup + ?Sized> ValidateStringLength<LintError, C> for Expression 
                     Err(LintError::InvalidConstant)
                 }
             }
-            Self::Variable(name, _) => {
-                if let Some(qualifier) = name.qualifier()
-                    && qualifier != TypeQualifier::PercentInteger
-                {
-                    return Err(LintError::InvalidConstant);
-                }
-
-                if let Some(Variant::VInteger(i)) =
-                    const_lookup.get_const_value(name.as_bare_name())
-                    && (1..=MAX_INTEGER).contains(i)
-                {
-                    return Ok(*i as u16);
-                }
-
-                Err(LintError::InvalidConstant)
-            }
+            Self::Variable(name, _) => validate_const_name(name, const_lookup),
+            // a dotted constant name, e.g. `MAX.LEN`, is parsed as a property
+            Self::Property(_, _, _) => match self.fold_name() {
+                Some(name) => validate_const_name(&name, const_lookup),
+                _ => Err(LintError::InvalidConstant),
+            },
             _ => Err(LintError::InvalidConstant),
         }
     }
+}
+
+fn validate_const_name<C: ConstLookup + ?Sized>(
+    name: &Name,
+    const_lookup: &C,
+) -> Result<u16, LintError> {
+    if let Some(qualifier) = name.qualifier()
+        && qualifier != TypeQualifier::PercentInteger
+    {
+        return Err(LintError::InvalidConstant);
+    }
+
+    if let Some(Variant::VInteger(i)) = const_lookup.get_const_value(name.as_bare_name())
+        && (1..=MAX_INTEGER).contains(i)
+    {
+        return Ok(*i as u16);
+    }
+
+    Err(LintError::InvalidConstant)
 }
